@@ -392,3 +392,86 @@ theorem histAEAD_ideal' (tbl : List SealRec) : Ideal (histAEAD tbl) tbl := by
   simp_all
 
 end AndaVerif.Enc
+
+namespace AndaVerif.Enc
+
+/-- The plan's reported range is the `as_range` resolution of the caller's range (no head request). -/
+theorem getPlan_asRange {size c : Nat} {range : Option GetRange} {p : GetPlan}
+    (h : getPlan size c range false = .ok p) :
+    (match range with | some r => asRange size r | none => .ok (0, size)) = .ok (p.rStart, p.rEnd) := by
+  cases range with
+  | none =>
+    simp only [getPlan, Bool.false_eq_true, if_false] at h
+    split at h <;> (injection h with h; subst h; rfl)
+  | some r =>
+    simp only [getPlan] at h
+    cases hr : asRange size r with
+    | error e => simp [hr] at h
+    | ok se =>
+      obtain ⟨s0, e0⟩ := se
+      simp only [hr, Bool.false_eq_true, if_false] at h
+      split at h <;> (injection h with h; subst h; exact hr)
+
+/-- A completed `get_opts` (any iteration document) together with the plan it was served under. -/
+theorem getWith_done {A : AEAD} {H : List SealRec} {commits : List Commit}
+    (hI : Ideal A H) (hN : NonceRespecting H) (hH : Honest H commits)
+    (strict : Bool) (storeChunk : Nat) (B : Backend)
+    (x : Bytes) (range : Option GetRange) (head : Bool) (reseg : Bytes → List Bytes)
+    (doc : Except RErr Meta)
+    (hfit : ∀ m, doc = .ok m → m.fits x = true)
+    (hmode : strict = true ∨ ∀ m, doc = .ok m → ¬ legacyShaped m)
+    {out : Bytes} (hdone : (getWith A strict storeChunk B x range head reseg doc).2 = .done out) :
+    ∃ k ∈ commits, k.loc = x ∧ ∃ p, getPlan k.plain.length k.c range head = .ok p ∧
+      (getWith A strict storeChunk B x range head reseg doc).1 = .ok p ∧
+      out = slice k.plain p.rStart p.rEnd := by
+  have hok := getWith_ok hI hN hH strict storeChunk B x range head reseg doc hfit hmode
+  unfold getWith at hdone hok ⊢
+  cases hm : doc with
+  | error e => simp [hm] at hdone
+  | ok m =>
+    simp only [hm] at hdone hok ⊢
+    cases hv : verifyMetadata A strict x m with
+    | error e => simp [hv] at hdone
+    | ok a =>
+      simp only [hv] at hdone hok ⊢
+      have hmode' : strict = true ∨ ¬ legacyShaped m := hmode.imp id (fun h => h m hm)
+      obtain ⟨_, n, t, p, _, _, hd⟩ := verify_authenticated hv hmode'
+      obtain ⟨k, hk, hloc, hun⟩ := authenticated_is_commit hI hH (hfit m hm) hd
+      obtain ⟨hrc, hcs⟩ := chunkSound_of_commit hI hN hH hk hun storeChunk
+      have hsize : m.size = k.plain.length := by rw [(unsealed_fields hun).1, hH.size k hk]
+      have hc1 := (hH.chunk k hk).2.1
+      cases hp : getPlan m.size (readChunkSize storeChunk m) range head with
+      | error e => simp [hp] at hdone
+      | ok plan =>
+        simp only [hp] at hdone hok ⊢
+        cases hpl : B.payload x m.generation with
+        | none => simp [hpl] at hdone
+        | some payload =>
+          simp only [hpl] at hdone hok ⊢
+          cases hb : backendGet payload plan.rr with
+          | error e => simp [hb] at hdone
+          | ok bytes =>
+            simp only [hb] at hdone hok ⊢
+            rw [hdone] at hok
+            obtain ⟨k', hk', hloc', p', hp', _, _, hout⟩ := hok
+            injection hp' with hp'
+            subst hp'
+            -- the slice is taken from the commit the document authenticates as
+            rw [hrc, hsize] at hp
+            obtain ⟨g1, g2, g3, g4⟩ := getPlan_ok hc1 hp
+            refine ⟨k, hk, hloc, plan, hp, rfl, ?_⟩
+            by_cases hse : plan.rStart = plan.rEnd
+            · have hl : plan.len = 0 := by omega
+              simp only [hrc, decStream, hl, if_true] at hdone
+              injection hdone with hdone
+              rw [← hdone, hse, slice_self]
+            · have hlt : plan.rStart < plan.rEnd := by omega
+              obtain ⟨g5, g6⟩ := g4 hlt
+              have hpo : PlanOk k.plain ⟨m, k.c, plan.startIdx, plan.startOffset⟩ plan.rStart plan.rEnd :=
+                ⟨hc1, hlt, g2, g5, g6⟩
+              have := (decStream_ok hpo hcs (reseg bytes)).1
+              rw [hrc, g3] at hdone
+              rw [hdone] at this
+              exact this
+
+end AndaVerif.Enc
